@@ -38,6 +38,7 @@ type Driver struct {
 	SliceN int // backing store bound (elements) for slice/string parameters
 	PkgPath string
 	Prefix  string // obligation id prefix
+	AssumeFPRange bool
 }
 
 const rtPath = "github.com/goplus/llgo/runtime/internal/runtime"
@@ -194,6 +195,9 @@ func (d *Driver) RunFunc(fn *ssa.Function) {
 			}
 			args = append(args, d.param(p.Type(), nm))
 		}
+		if d.AssumeFPRange {
+			d.assumeRepresentable(fn, args)
+		}
 		snap := d.M.Mem.Snapshot()
 		// ---- oracle: Go semantics
 		var og Outcome
@@ -264,4 +268,19 @@ func eqVal(a, b Value) (r *smt.Term) {
 		}
 	}()
 	return core.EqValue(a, b)
+}
+
+// assumeRepresentable: for a float -> integer conversion function the spec only
+// defines the result when the (truncated) value fits the target type.
+func (d *Driver) assumeRepresentable(fn *ssa.Function, args []Value) {
+	if len(fn.Params) != 1 || fn.Signature.Results().Len() != 1 {
+		return
+	}
+	pt, ok1 := fn.Params[0].Type().Underlying().(*types.Basic)
+	rt, ok2 := fn.Signature.Results().At(0).Type().Underlying().(*types.Basic)
+	if !ok1 || !ok2 || pt.Info()&types.IsFloat == 0 || rt.Info()&types.IsInteger == 0 {
+		return
+	}
+	w := d.G.LayoutOf(rt).Bits
+	d.M.Assume(smt.BNot(llfe.FPOutOfRange(args[0].(*smt.Term), w, rt.Info()&types.IsUnsigned == 0)))
 }
